@@ -1,8 +1,12 @@
 // ===== SHIM (after the extracted items): the subset of TypeGeneratorSettings / TypeGenerator that
-// upcast_composite and add_as_compact_derive touch, and the derived Clone impls (ASSUMED structural). =====
+// upcast_composite and add_as_compact_derive could touch (all fields except `substitutes` and `alloc_crate_path`), and the derived Clone impls (ASSUMED structural). =====
 pub struct TypeGeneratorSettings {
+    pub types_mod_ident: Ident,
+    pub should_gen_docs: bool,
     pub derives: DerivesRegistry,
+    pub decoded_bits_type_path: Option<SynPath>,
     pub compact_as_type_path: Option<SynPath>,
+    pub compact_type_path: Option<SynPath>,
     pub insert_codec_attributes: bool,
 }
 
